@@ -580,3 +580,28 @@ func init() {
 			Old: "!k.Elem().Type().Comparable()", New: "!k.Type().Comparable()", Rule: "MERGE-1"},
 	)
 }
+
+func init() {
+	addMutants(
+		// ---- round-f strengthening
+		Mutant{ID: "ns4-disable-before-open", Props: []string{"C02", "C08"}, File: "arshal_any.go", Func: "marshalObjectAny",
+			Old: "\tif err := enc.WriteToken(jsontext.BeginObject); err != nil {\n\t\treturn err\n\t}\n\t// A Go map guarantees that each entry has a unique key.\n\t// The only possibility of duplicates is due to invalid UTF-8.\n\tif !mo.Flags.Get(jsonflags.AllowInvalidUTF8) {\n\t\txe.Tokens.Last.DisableNamespace()\n\t}\n",
+			New: "\tif !mo.Flags.Get(jsonflags.AllowInvalidUTF8) {\n\t\txe.Tokens.Last.DisableNamespace()\n\t}\n\tif err := enc.WriteToken(jsontext.BeginObject); err != nil {\n\t\treturn err\n\t}\n", Rule: "NS-4"},
+		Mutant{ID: "flagmask1-has-on-boolean-option", Props: []string{"C19", "C04"}, File: "arshal.go", Func: "Unmarshal",
+			Old: "xd.Flags.Get(jsonflags.ReportErrorsWithLegacySemantics)", New: "xd.Flags.Has(jsonflags.ReportErrorsWithLegacySemantics)", Rule: "FLAGMASK-1"},
+		Mutant{ID: "prec1-textappender-not-nondefault", Props: []string{"C08", "C17", "C15"}, File: "arshal_methods.go", Func: "makeMethodArshaler",
+			Old: "\tif needAddr, ok := implements(t, textAppenderType); ok {\n\t\tfncs.nonDefault = true\n", New: "\tif needAddr, ok := implements(t, textAppenderType); ok {\n", Rule: "PREC-1"},
+		Mutant{ID: "addr1-indirect-keeps-parent-bit", Props: []string{"C09", "C17"}, File: "arshal_default.go", Func: "addressableValue.indirect",
+			Old: "va = addressableValue{va.Elem(), false} // dereferenced pointer is always addressable", New: "va.Value = va.Elem()", Rule: "ADDR-1"},
+		Mutant{ID: "v15-guard-tests-other-option", Props: []string{"C09", "C19"}, File: "v1/stream.go", Func: "Decoder.DisallowUnknownFields",
+			Old: "jsonv2.GetOption(dec.opts, jsonv2.RejectUnknownMembers); !reject", New: "jsonv2.GetOption(dec.opts, unmarshalAnyWithRawNumber); !reject", Rule: "V1-5"},
+		Mutant{ID: "unsup1-identity-in-sanitiser", Props: []string{"C17", "C02"}, File: "errors.go", Func: "wrapErrUnsupported",
+			Old: "if errors.Is(err, errors.ErrUnsupported) {", New: "if err == errors.ErrUnsupported {", Rule: "UNSUP-1"},
+		Mutant{ID: "opt3-join-clears-presence", Props: []string{"C19"}, File: "internal/jsonopts/options.go", Func: "Struct.Join",
+			Old: "dst.Flags.Set(jsonflags.FormatTagSupported | 0)", New: "dst.Flags.Clear(jsonflags.FormatTagSupported)", Rule: "OPT-3"},
+		Mutant{ID: "ctrl1-space-on-control-side", Props: []string{"C13", "C11"}, File: "internal/jsonwire/decode.go", Func: "ConsumeStringResumable",
+			Old: "if v1 >= ' ' {", New: "if v1 > ' ' {", Rule: "CTRL-1"},
+		Mutant{ID: "verb1-raw-token-verbatim-under-options", Props: []string{"C06", "C11"}, File: "jsontext/token.go", Func: "Token.appendString",
+			Old: "if jsonwire.ConsumeSimpleString(buf) == len(buf) {", New: "if jsonwire.ConsumeSimpleString(buf) == len(buf) || (flags.Get(jsonflags.PreserveRawStrings) && !flags.Get(jsonflags.AnyEscape)) {", Rule: "VERB-1"},
+	)
+}
